@@ -18,7 +18,7 @@ def family(tier, rnd):
                 if tier == "quick" and len(combos) > 24:
                     combos = rnd.sample(combos, 24)
                 for hks in combos:
-                    hes = ["ret", "noret", "rethrow"] if any(h != "none" for h in hks) else ["ret"]
+                    hes = ["ret", "noret", "rethrow", "noretx", "noretc"] if any(h != "none" for h in hks) else ["ret"]
                     if tier == "quick" and depth >= 2:
                         hes = [rnd.choice(hes)]
                     for he in hes:
@@ -80,7 +80,7 @@ def run(ctx):
     cov = dict(traces_validated_against_impl=stats["programs"] - stats["skipped"], samples=samples,
                evaluations=stats["programs"], distinct_nontrivial=len(set(p["tag"] for p in progs)),
                rule="raise kind {抛出异常, 抛出 custom class, index out of range, division by zero} x raise depth 0..3 x site {plain, in 每当, in 遍历, in 如果; inside the target expression of 遍历, the condition of 每当 / 如果 / 再如, a call argument, a declaration, a list literal, an 输出 value} "
-                    "x handler placement per frame {none, matching, non-matching, non-matching then matching} x handler ending {输出, none, raises again}, "
+                    "x handler placement per frame {none, matching, non-matching, non-matching then matching} x handler ending {输出, none, none with a valued last statement, raises again}, "
                     "each followed by probes (caller local, second identical call, callee local must be undefined); the same with the call chain crossing one or two module-file boundaries (main -> 模甲 -> 模乙, then a method of the main file must still be callable); plus constructor / handler-fault / "
                     "receiver-restoration / recursion programs. The ZnEval machine (TLC) gives the expected statement trace, call depth at every "
                     "statement, display trace and outcome; the real run must match event by event. distinct = distinct matrix cells",
